@@ -271,3 +271,42 @@ Proof.
     + intros [H|H]; subst; cbn; [reflexivity|]. rewrite Bool.orb_true_r. reflexivity.
   - destruct (is_nil a || is_nil b); [left|right]; reflexivity.
 Qed.
+
+Lemma geb_false a b : a < b -> (a >=? b) = false.
+Proof. intros H. destruct (a >=? b) eqn:E; [apply Z.geb_le in E; lia|reflexivity]. Qed.
+
+(* ---- indexing a concatenation of arrays: the left part below #a, the right part from #a on ---- *)
+Lemma index_concat_arr (a b : list value) i :
+  0 <= i < Z.of_nat (List.length a + List.length b) ->
+  Index1 (VArr (a ++ b)) (VInt i) =
+    if i <? Z.of_nat (List.length a) then Index1 (VArr a) (VInt i)
+    else Index1 (VArr b) (VInt (i - Z.of_nat (List.length a))).
+Proof.
+  intros Hi. cbn [Index1 index_of]. rewrite app_length.
+  assert (E0 : (i <? 0) = false) by (apply Z.ltb_ge; lia).
+  assert (E1 : (i >=? Z.of_nat (List.length a + List.length b)) = false).
+  { apply geb_false; lia. }
+  rewrite E0, E1. cbn [orb].
+  destruct (i <? Z.of_nat (List.length a)) eqn:El.
+  - apply Z.ltb_lt in El.
+    assert (E2 : (i >=? Z.of_nat (List.length a)) = false).
+    { apply geb_false; lia. }
+    rewrite E2. cbn [orb]. f_equal. apply app_nth1. lia.
+  - apply Z.ltb_ge in El.
+    assert (E3 : (i - Z.of_nat (List.length a) <? 0) = false) by (apply Z.ltb_ge; lia).
+    assert (E4 : (i - Z.of_nat (List.length a) >=? Z.of_nat (List.length b)) = false).
+    { apply geb_false; lia. }
+    rewrite E3, E4. cbn [orb]. f_equal. rewrite app_nth2 by lia. f_equal. lia.
+Qed.
+
+(* the length of an array literal's value is the number of elements; Len never fails on strings and arrays *)
+Lemma len_defined a :
+  (sliceable a -> exists n, Len a = Ok (VInt n) /\ 0 <= n /\ n = vlen a) /\
+  (~ sliceable a -> Len a = Fail (if is_nil a then ErrNil else ErrType)).
+Proof.
+  split.
+  - intros Hs. destruct a; try (exfalso; exact Hs); cbn [Len vlen]; eexists; (split; [reflexivity|]); (split; [|reflexivity]).
+    + unfold slen. lia.
+    + lia.
+  - intros Hs. destruct a; cbn [Len is_nil]; try reflexivity; exfalso; apply Hs; exact I.
+Qed.
